@@ -467,6 +467,7 @@ fn judge(rep: &Report, label: &str, cases: &[String], results: &[WorkerOutcome],
         let def = v["def"].as_str().unwrap_or("").to_string();
         let what = if v["kind"] == "functions" { v["part"].as_str().unwrap_or("").to_string() } else { def_class(&def) };
         match res {
+            WorkerOutcome::Skipped => rep.not_exhaustive("more than 200 cases of a worker space hung: the rest of that space was not run"),
             WorkerOutcome::Answer(a) if a == "ERR" || a.starts_with("OK") => {
                 outcomes.insert(hash_of(a));
                 if a.starts_with("OK") {
